@@ -62,7 +62,10 @@ IpLits = ["127.0.0.1", "127.0.0.1/8", "127.0.0.0/7", "127.255.255.255", "128.0.0
           "::2:3:4:5:6:7:8", "1::8", "ABCD::abcd", "1.2.3", "1.2.3.4.5", "256.1.1.1", "01.2.3.4", "1.2.3.4/33",
           "1.2.3.4/-1", "1.2.3.4/", "1.2.3.4/08", "1.2.3.4/032", "::1/129", "::1/0128", "::ffff:1.2.3.4", "1::2::3",
           "1:2:3:4:5:6:7:8:9", "1:2:3:4:5:6:7", "12345::", ":1", "1:", "::g", "x", "", "1.2.3.4 ", " 1.2.3.4", "1.2.3.-4",
-          "1.2..4", ":::", "1.2.3.4/8/8"]
+          "1.2..4", ":::", "1.2.3.4/8/8",
+          # IPv4-mapped IPv6 addresses whose IPv4 part is a loopback / multicast address: IPv6 addresses, not in ::1/128
+          # nor in ff00::/8
+          "::ffff:7f00:1", "::ffff:e000:1", "::ffff:7f00:1/104", "::ffff:e000:0/100", "::ffff:7f00:0/120"]
 
 
 # ---- C12: literals built from components (every part at its boundaries)
